@@ -1,24 +1,5 @@
-# ---------------------------------------------------------------- C12 CriticMarkup accept / reject (erase layer)
-_C12_SHAPE = "token tree has the shape produced by mmd_critic_tokenize_string + token_pairs_match_pairs_inside_token(PRUNE_MATCH): contiguous chain, pair token with children opener..closer, mates set, unmatched markers with mate==NULL (ASSUMED: Aho-Corasick tokenizer and pair matcher are out of CBMC's reach)"
-_C12_FN = ["accept_token_tree", "accept_token", "accept_token_tree_sub", "reject_token_tree", "reject_token", "reject_token_tree_sub"]
-for _h, _nm, _tier, _shape in (("h_single", "c12_single_pair", "quick", "text . PAIR(ADD|DEL|HI|COM around one text run) . text"),
-                                ("h_sub", "c12_substitution", "quick", "text . {~~ old ~> new ~~} . text"),
-                                ("h_unmatched", "c12_unmatched", "quick", "text . unmatched opener|closer of any of the 5 kinds . text"),
-                                ("h_nested", "c12_nested", "quick", "text . OUTER(ADD|DEL|HI){ text INNER(ADD|DEL|HI|COM){text} text }"),
-                                # FAILS on the unchanged tree: genuine defect (DESIGN 9 item 9): accept_token/reject_token erase a CM_SUB_DIV that is not inside a substitution
-                                ("h_stray_div", "c12_stray_div", "thorough", "text . stray ~> . text")):
-    U(_nm, ["C12", "C01"], _h, ["C12/cm.c"], ["critic_markup.c"], plain=True, lib=("lib/ds_sink.c",),
-      defines=["-DTB=2", "-DSINK_CAP=24"], kind="bounded", tier=_tier,
-      bounds={"shape": _shape, "text run bytes": "0..2 each, symbolic non-NUL", "accept/reject": "both (symbolic)", "unwind": 25},
-      cbmc_flags=["--unwind", "25", "--unwindset", "accept_token_tree.0:7,reject_token_tree.0:7,accept_token_tree_sub.0:7,accept_token_tree_sub.1:7,reject_token_tree_sub.0:7,reject_token_tree_sub.1:7,accept_token_tree:2,reject_token_tree:2,accept_token:3,reject_token:3,accept_token_tree_sub:2,reject_token_tree_sub:2", "--unwinding-assertions"], functions=_C12_FN,
-      callees={"d_string_erase/d_string_new": "ghost sink (DString by specification, C19)"},
-      native={"repo": ["critic_markup.c", "d_string.c"], "ldflags": ["-Wl,--unresolved-symbols=ignore-all"]}, small=["-DVERIF_SMALL=1"],
-      min_obligations=20, timeout=600, cost=30, assumptions=[NOFAIL, _C12_SHAPE])
-
-PROPS["C12"] = {
-    "level": "other",
-    "explanation": "TODO",
-    "slice": "TODO", "not_reached": "TODO",
-    "trusted_base": ["cbmc/goto-cc 6.11.0 (MiniSat2)", "lib/ds_sink.c"],
-    "assumptions": [NOFAIL, _C12_SHAPE],
-}
+# C12 (CriticMarkup accept/reject, erase layer): NOT REGISTERED.  The draft spec C12/cm.c (token-tree shape families single pair /
+# substitution / unmatched marker / stray ~> / nested, ghost-sink DString, reference result by spec code) and the draft unit table
+# defs.py.draft exist, but every unit ran out of 14 GB / 600 s in CBMC 6.11 (symbolic text-run lengths make the token chain and all
+# offsets symbolic; recursion accept_token <-> accept_token_tree has to be bounded with --unwindset).  Next step: concrete run
+# lengths per unit (one unit per length vector) so that the chain shape is constant under symbolic execution.
